@@ -98,7 +98,7 @@ def _remap(x, lo, bo, is_term=False):
     return out
 
 
-def _splice(caller, bi, callee):
+def _splice(caller, bi, callee, arg_ops=None):
     t = caller["blocks"][bi]["term"]
     lo = len(caller["locals"])
     bo = len(caller["blocks"])
@@ -114,12 +114,119 @@ def _splice(caller, bi, callee):
     caller["blocks"].append({"cleanup": False, "stmts": [{"k": "assign", "place": t["dest"], "rv": {"k": "use", "op": {"k": "move", "place": {"l": lo, "p": []}}}, "loc": loc}],
                              "term": {"k": "goto", "target": t["target"], "loc": loc}})
     blk = caller["blocks"][bi]
-    for i, a in enumerate(t["args"]):
+    for i, a in enumerate(arg_ops if arg_ops is not None else t["args"]):
         blk["stmts"].append({"k": "assign", "place": {"l": lo + i + 1, "p": []}, "rv": {"k": "use", "op": a}, "loc": loc})
     blk["term"] = {"k": "goto", "target": bo, "loc": loc}
     for d in callee.get("debug", []):
         nd = _remap(d, lo, bo)
         caller.setdefault("debug", []).append(nd)
+
+
+FN_CALLS = ("std::ops::Fn::call", "std::ops::FnMut::call_mut", "std::ops::FnOnce::call_once")
+
+
+def _fn_of(t):
+    f = t.get("func")
+    return (f or {}).get("fn") if isinstance(f, dict) else None
+
+
+def _defs(b, l):
+    out = []
+    for bl in b["blocks"]:
+        if bl.get("cleanup"):
+            continue
+        for s in bl["stmts"]:
+            if s["k"] == "assign" and s["place"]["l"] == l and not s["place"]["p"]:
+                out.append(s["rv"])
+        t = bl["term"]
+        if t["k"] == "call" and t["dest"]["l"] == l and not t["dest"]["p"]:
+            out.append(None)
+    return out
+
+
+def _closure_of(b, l, depth=0):
+    """def path of the closure a local holds (directly, moved, or behind a reference)"""
+    if depth > 8:
+        return None
+    ds = _defs(b, l)
+    if len(ds) != 1 or ds[0] is None:
+        return None
+    rv = ds[0]
+    if rv["k"] == "agg" and rv.get("agg") == "closure":
+        return rv["def"]["path"]
+    if rv["k"] == "use" and rv["op"]["k"] in ("copy", "move") and not rv["op"]["place"]["p"]:
+        return _closure_of(b, rv["op"]["place"]["l"], depth + 1)
+    if rv["k"] == "ref" and (not rv["place"]["p"] or (len(rv["place"]["p"]) == 1 and rv["place"]["p"][0]["k"] == "deref")):
+        return _closure_of(b, rv["place"]["l"], depth + 1)
+    return None
+
+
+def _calls_a_fn_param(b):
+    """the body calls one of its own parameters through Fn*/call*: a higher-order helper"""
+    n = b["arg_count"]
+    for bl in b["blocks"]:
+        if bl.get("cleanup"):
+            continue
+        t = bl["term"]
+        if t["k"] != "call":
+            continue
+        fn = _fn_of(t)
+        if not fn or fn.get("path") not in FN_CALLS or not t["args"]:
+            continue
+        a = t["args"][0]
+        if a["k"] not in ("copy", "move") or a["place"]["p"]:
+            continue
+        l = a["place"]["l"]
+        for _ in range(6):
+            if 1 <= l <= n:
+                return True
+            ds = _defs(b, l)
+            if len(ds) != 1 or ds[0] is None:
+                break
+            rv = ds[0]
+            if rv["k"] == "ref" and (not rv["place"]["p"] or (len(rv["place"]["p"]) == 1 and rv["place"]["p"][0]["k"] == "deref")):
+                l = rv["place"]["l"]
+            elif rv["k"] == "use" and rv["op"]["k"] in ("copy", "move") and not rv["op"]["place"]["p"]:
+                l = rv["op"]["place"]["l"]
+            else:
+                break
+    return False
+
+
+def _eligible_hof(b):
+    if b.get("kind") == "Closure" or b.get("impl_trait") or str(b.get("vis")) == "Public":
+        return False
+    return _calls_a_fn_param(b)
+
+
+def _inline_closure_calls(j, caller, from_block):
+    """after a higher-order helper was spliced into `caller`: calls of a closure value whose
+    creation is now visible in the same body are replaced by the closure's body"""
+    by_path = {b["path"]: b for b in j["bodies"]}
+    used = []
+    bi = from_block
+    while bi < len(caller["blocks"]):
+        bl = caller["blocks"][bi]
+        t = bl["term"]
+        bi += 1
+        if bl.get("cleanup") or t["k"] != "call" or t.get("target") is None:
+            continue
+        fn = _fn_of(t)
+        if not fn or fn.get("path") not in FN_CALLS or len(t["args"]) != 2:
+            continue
+        a = t["args"][0]
+        if a["k"] not in ("copy", "move") or a["place"]["p"]:
+            continue
+        cpath = _closure_of(caller, a["place"]["l"])
+        cb = by_path.get(cpath) if cpath else None
+        tup = t["args"][1]
+        if cb is None or tup["k"] not in ("copy", "move") or tup["place"]["p"]:
+            continue
+        nargs = cb["arg_count"] - 1
+        ops = [a] + [{"k": "move", "place": {"l": tup["place"]["l"], "p": [{"k": "field", "i": i, "name": str(i), "adt": "<tuple>"}]}} for i in range(nargs)]
+        _splice(caller, bi - 1, cb, arg_ops=ops)
+        used.append(cpath)
+    return used
 
 
 def inline_outparam_helpers(j):
@@ -154,11 +261,14 @@ def inline_outparam_helpers(j):
             if len(bs) != 1:
                 continue
             callee = bs[0]
+            hof = False
             if not _eligible(callee):
-                continue
+                if not _eligible_hof(callee):
+                    continue
+                hof = True
             ss = sites.get(key, [])
             small = sum(1 for bl in callee["blocks"] if not bl.get("cleanup")) <= SMALL
-            if not ss or (len(ss) != 1 and not (small and len(ss) <= 4)):
+            if not ss or (len(ss) != 1 and not ((small or hof) and len(ss) <= 4)):
                 continue
             if any(c is callee or c["blocks"][bi_]["term"].get("target") is None for c, bi_ in ss):
                 continue
@@ -169,9 +279,23 @@ def inline_outparam_helpers(j):
                     inner = True
             if inner:
                 continue
+            closures_used = []
             for caller, bi in ss:
+                first_new = len(caller["blocks"])
                 _splice(caller, bi, callee)
+                if hof:
+                    closures_used += _inline_closure_calls(j, caller, first_new)
             j["bodies"] = [b for b in j["bodies"] if b is not callee]
+            if closures_used:
+                # a closure that was only ever handed to this helper has no caller left
+                still = set()
+                for b in j["bodies"]:
+                    for bl in b["blocks"]:
+                        t = bl["term"]
+                        if t["k"] == "call" and (_fn_of(t) or {}).get("path") in FN_CALLS:
+                            still.add(b["path"])
+                j["bodies"] = [b for b in j["bodies"] if b["path"] not in set(closures_used)]
+                done += ["%s (closure inlined)" % c for c in closures_used]
             done.append(callee["path"])
             progress = True
             break
